@@ -11,7 +11,8 @@ ID = "C17"
 LEVEL = "exploration"
 RULE = (
     "formulas: atoms v?c and c?v (v in {x,y}, c in {0,1,2}, 6 comparison operators); every and/or of 2 atoms, every "
-    "and/or of 3 atoms over x (quick: v?c orientation only), not-forms and one level of nesting, each rewritten by "
+    "and/or of 3 atoms over x (quick: v?c orientation only), not-forms and one level of nesting, and, as the test of a "
+    "conditional expression, and/or/not of 2-3 integer operands from {x, y, -x, +x, ~x, not x, x+1, x-1, x%2, -y, x*y, x>0}, each rewritten by "
     "simplify_boolean_expressions, ..._symmath, replace_negated_numeric_comparison, remove_redundant_boolop_values and, "
     "as the condition of an if/else or loop body, by swap_if_else / early_continue / early_return / fix_if_return / "
     "fix_if_assign; ranges: range(a[,b[,s]]) with a,b in 0..4, s in {1,2,3,-1} x filters of 1-2 atoms over the loop "
@@ -65,6 +66,28 @@ def formulas(tier):
             yield "(%s and %s) or %s" % (a, b, c)
             yield "(%s or %s) and %s" % (a, b, c)
             yield "(%s and %s) or (%s and %s)" % (a, c, b, c)
+
+
+# operands that are integers rather than comparisons (added after the seeded change C17-unaryop-as-not, where -x was
+# translated as "not x"): judged in a truth context, which is what a condition is; value-context and/or is C15's business
+INT_OPERANDS = ["x", "y", "-x", "+x", "~x", "not x", "x + 1", "x - 1", "x % 2", "-y", "x * y", "x > 0"]
+
+
+def int_formulas(tier):
+    for a, b in itertools.product(INT_OPERANDS, repeat=2):
+        for j in ("and", "or"):
+            yield "%s %s %s" % (a, j, b)
+            yield "not (%s %s %s)" % (a, j, b)
+    for a in INT_OPERANDS:
+        yield "not %s" % a
+        yield "not not %s" % a
+    ops3 = INT_OPERANDS if tier == "thorough" else INT_OPERANDS[:6]
+    for a, b, c in itertools.product(ops3, repeat=3):
+        yield "%s and (%s or %s)" % (a, b, c)
+        yield "%s or %s and %s" % (a, b, c)
+        if tier == "thorough":
+            yield "%s and %s and %s" % (a, b, c)
+            yield "%s or %s or %s" % (a, b, c)
 
 
 COND_SHAPES = {
@@ -151,6 +174,8 @@ def _chunks(it, n):
 
 def units(tier):
     for ch in _chunks(formulas(tier), 200):
+        yield {"t": "bool", "forms": ch}
+    for ch in _chunks(("1 if %s else 2" % f for f in int_formulas(tier)), 100):
         yield {"t": "bool", "forms": ch}
     cond_forms = [f for i, f in enumerate(formulas("quick")) if " and " in f or " or " in f or f.startswith("not")]
     cond_forms = cond_forms[:: (7 if tier == "quick" else 1)] + ["not %s" % a for a in atoms()]
